@@ -66,6 +66,18 @@ def run(report: Report, tier, seed):
                                   bound=f"all graphs of <= {nmax} blocks x every terminal end block", cases=sc, distinct_nontrivial=sc, failures=len(sf)))
     fails = bounded(report, tier, seed)
 
+    def directed(obs):
+        """native search aimed at the construct whose fragment obligation failed (same oracle as the sweep)"""
+        feats = {"subs": False, "recursion": False}
+        if any("/for/" in o.id or "/while/" in o.id or "loop" in o.id for o in obs):
+            feats["loopheavy"] = True
+        specs = [{"seed": seed * 7919 + 50000 + i, "version": [2, 6, 10][i % 3], "mode": "Application", "size": 3, "features": feats, "options": [{}]} for i in range(240)]
+        for s, r in zip(specs, e2e.sweep(specs)):
+            mm = [m for m in r["mismatches"] if m["kind"] in KINDS]
+            if mm:
+                return {"input": {"spec": s}, "mismatches": mm[:3], "program": r.get("program"), "teal": r["teals"]}
+        return None
+
     def search(fn, obs):
         if "flattenBlocks" in fn:
             return {"input": {"block_list": ff[0]}, "what": ff[0]["what"]} if ff else None
@@ -75,7 +87,7 @@ def run(report: Report, tier, seed):
                 if hit:
                     return hit
             return None
-        return fails[0] if fails else None
+        return fails[0] if fails else directed(obs)
 
     report.settle_undecided(search)
     report.settle_refuted(search)
